@@ -456,6 +456,8 @@ theorem C03_wrong_comparison_counterexample :
 theorem C03_on_tree : Facts.truncateComparesWithFollowerTermEntry = true ∧ Facts.cursorStartsAtTruncatedHead = true ∧
     Facts.followerTruncateOnlyWhenFenced = true ∧ Facts.followerAppendChecksTermAlways = true ∧
     Facts.lateRequestCannotConvertLeader = true ∧ Facts.snapshotChunkTermMustEqual = true ∧
-    Facts.walReaderServesOnlySyncedEntries = true ∧ Facts.walSyncCallbacksOnlyForFlushedEntries = true := by decide
+    Facts.walReaderServesOnlySyncedEntries = true ∧ Facts.walSyncCallbacksOnlyForFlushedEntries = true ∧
+    -- an entry counts as appended (and a re-delivery of it as a duplicate) only after the WAL has taken it
+    Facts.followerCountsEntryAfterWalAppend = true := by decide
 
 end Oxia.C03
